@@ -433,6 +433,7 @@ struct St {
     change_points: Vec<u64>,
     log: Vec<Value>,
     keep_log: bool,
+    last_arrival: std::time::Instant,
 }
 struct Sched {
     m: Mutex<St>,
@@ -512,10 +513,10 @@ pub fn sched(args: &[String]) {
     let log_every = arg_u64(args, "--log-schedules", 2);
     let native = arg_val(args, "--native-pools").unwrap_or("1,2,4,16".into());
     let native_pools: Vec<usize> = native.split(',').filter(|s| !s.is_empty()).map(|s| s.parse().unwrap()).collect();
-    let pool = rayon::ThreadPoolBuilder::new().num_threads(64).stack_size(8 << 20).build().unwrap();
+    let pool = Arc::new(rayon::ThreadPoolBuilder::new().num_threads(64).stack_size(8 << 20).build().unwrap());
     let sched = Arc::new(Sched {
         m: Mutex::new(St { n: 0, arrived: 0, waiting: vec![], token: None, finished: 0, rng: Rng::new(1), steps: 0, ids: vec![], strategy: 0, last: 0,
-                           prio: vec![], change_points: vec![], log: vec![], keep_log: false }),
+                           prio: vec![], change_points: vec![], log: vec![], keep_log: false, last_arrival: std::time::Instant::now() }),
         cvs: (0..80).map(|_| Condvar::new()).collect(),
         main: Condvar::new(),
     });
@@ -533,6 +534,7 @@ pub fn sched(args: &[String]) {
                 g.prio.push(p);
                 TASK.with(|c| c.set(id));
                 g.arrived += 1;
+                g.last_arrival = std::time::Instant::now();
                 id
             }
             _ => TASK.with(|c| c.get()),
@@ -568,7 +570,18 @@ pub fn sched(args: &[String]) {
             }
         }
         while g.token != Some(me) {
-            g = s2.cvs[me].wait(g).unwrap();
+            let (g2, _to) = s2.cvs[me].wait_timeout(g, Duration::from_millis(300)).unwrap();
+            g = g2;
+            // the scheduler expects one task per root move; if the code under test splits the root work
+            // differently (fewer tasks than root moves), do not wait for arrivals that never come
+            if g.token.is_none() && g.arrived < g.n && g.arrived > 0 && g.last_arrival.elapsed() > Duration::from_millis(1500) {
+                g.n = g.arrived;
+                if let Some(t) = g.pick() {
+                    if t != me {
+                        s2.cvs[t].notify_one();
+                    }
+                }
+            }
         }
         if g.keep_log {
             let j = ev_json(me, ev);
@@ -617,15 +630,35 @@ pub fn sched(args: &[String]) {
                 }
                 g.change_points = cps;
             }
-            let mut board = pos.setup();
-            let r = guarded(|| {
-                pool.install(|| {
-                    let mut ctx = SearchContext::new(depth);
-                    let mut gen = MoveGenerator::new();
-                    let m = alpha_beta_search(&mut ctx, &mut board, &mut gen);
-                    (m.map(|m| Mv::of(&m)).map_err(|e| format!("{}", e)), ctx.last_score())
-                })
+            // run in a helper thread: a schedule under which the tasks block each other for good must be
+            // observed (and reported), not hang the harness
+            let (tx, rx) = mpsc::channel();
+            let pool2 = pool.clone();
+            let p2 = pos.clone();
+            std::thread::spawn(move || {
+                let mut board = p2.setup();
+                let r = guarded(|| {
+                    pool2.install(|| {
+                        let mut ctx = SearchContext::new(depth);
+                        let mut gen = MoveGenerator::new();
+                        let m = alpha_beta_search(&mut ctx, &mut board, &mut gen);
+                        (m.map(|m| Mv::of(&m)).map_err(|e| format!("{}", e)), ctx.last_score())
+                    })
+                });
+                let _ = tx.send(r);
             });
+            let r = match rx.recv_timeout(Duration::from_secs(240)) {
+                Ok(r) => r,
+                Err(_) => {
+                    // no answer: deadlock / livelock under this schedule
+                    let steps = sched.m.lock().map(|g| g.steps).unwrap_or(0);
+                    outcomes.push(json!({"schedule": s, "strategy": s % 9, "steps": steps, "outcome": {"kind": "timeout"}}));
+                    writeln!(file, "{}", json!({"t": "outcomes", "pos": pos.to_json(), "depth": depth, "nroot": nroot, "outcomes": outcomes})).unwrap();
+                    file.flush().unwrap();
+                    println!("{}", json!({"searches": searches + 1, "scheduling_steps": total_steps, "hung": true}));
+                    std::process::exit(0);
+                }
+            };
             let (steps, log) = {
                 let mut g = sched.m.lock().unwrap();
                 let st = g.steps;
